@@ -152,3 +152,170 @@ Proof. vm_compute. reflexivity. Qed.
 Example C05_fault_model_runs :
   scenario (fun i => if Nat.eqb i 7 then KShort else KOk) 51 true (mkFS None CAbsent) = (Parked, 8%nat, false, 8%nat).
 Proof. vm_compute. reflexivity. Qed.
+
+(* ---- (3) the uploader half: upload.Run under faults of every os / http /
+        entropy call ----
+   Model/UploaderFault.v: ONE solo uploader.Run (the thread program of
+   Model/Uploader.v, C07/C08) in which every call - ReadDir, ReadFile, Stat,
+   OpenFile(O_EXCL), File.Write, File.Close, WriteFile, Remove, MkdirAll,
+   http.Post and the crypto/rand read of computeRandom - has an index in
+   program order, and a FAULT PLAN maps the index to ok | error | short write
+   | (for Post) 4xx | 5xx.  `picks` is the order in which Go's map iteration
+   visits the weeks.  `x_panic` marks the one panic the code can raise:
+   computeRandom panics when crypto/rand fails (the exported upload.Run
+   recovers it and returns; the slice panic of uploadReportContents on a
+   short report name is gone since fix 8d04c54). *)
+From Coq Require Strings.String.
+From Tele Require Lib.FS Model.Span Model.Uploader Model.UploaderFault Proofs.UploaderBase Proofs.UploaderNames
+  Proofs.UploaderData Proofs.UploaderNoDup Proofs.UploaderFaultFacts Proofs.UploaderFaultInv Proofs.UploaderFaultIso
+  Proofs.UploaderFaultKeep Proofs.UploaderFaultDrop.
+
+Section UploaderHalf.
+Import Coq.Strings.String.
+Import Lib.FS Model.Span Model.Uploader Model.UploaderFault Proofs.UploaderBase Proofs.UploaderNames
+  Proofs.UploaderData Proofs.UploaderNoDup Proofs.UploaderFaultFacts Proofs.UploaderFaultInv Proofs.UploaderFaultIso
+  Proofs.UploaderFaultKeep Proofs.UploaderFaultDrop.
+Local Open Scope nat_scope.
+
+(* the explicit bound: n = number of entries of local/ *)
+Theorem C05_call_bound : forall n, call_bound n = 21 * n + 6.
+Proof. intros n. reflexivity. Qed.
+Print Assumptions C05_call_bound.
+
+(* run_total: for EVERY fault plan, iteration order, initial directory state
+   and configuration, a solo Run (exported or inner) returns after at most
+   21 n + 6 calls; a panic is raised only if the plan fails a call (the
+   entropy read) *)
+Theorem C05_run_total : forall p picks f c exported,
+  let y := frun (call_bound (entries f)) p picks (finit f c exported) in
+  fdone y = true /\ x_idx y <= call_bound (entries f) /\
+  (x_panic y = true -> exists i, bad p i = true).
+Proof. exact run_total. Qed.
+Print Assumptions C05_run_total.
+
+(* every state of a run, in particular its last, is a reachable state of the
+   theorems below *)
+Theorem C05_run_reach : forall fuel p picks x0 x, freach p x0 x -> freach p x0 (frun fuel p picks x).
+Proof. exact frun_reach. Qed.
+Print Assumptions C05_run_reach.
+
+(* fault_isolation (1): under every plan a count file that is not expired
+   (or cannot be parsed) keeps its inode and its content *)
+Theorem C05_fault_active_untouched : forall p f0 c exported, fs_wf f0 ->
+  forall x n v, freach p (finit f0 c exported) x -> is_count n = true -> d_find (f_local f0) n = Some v ->
+  (forall cf, parse (snd v) = Some cf -> before_start (cf_end cf) (u_start c) = false) ->
+  d_find (f_local (x_fs x)) n = Some v.
+Proof. exact fault_active_untouched. Qed.
+Print Assumptions C05_fault_active_untouched.
+
+(* fault_isolation (2): under every plan a step removes a count file only if
+   it is an expired file of the week W being deleted and a witness for W's
+   report exists at that moment (local.W.json, W.json, the server's marker,
+   or a ready report whose name contains W) *)
+Theorem C05_fault_delete_only_after_report : forall p f0 c exported, fs_wf f0 ->
+  forall x picks n, freach p (finit f0 c exported) x -> is_count n = true ->
+  d_find (f_local (x_fs x)) n <> None -> d_find (f_local (x_fs (fst (fstep p picks x)))) n = None ->
+  witness_now (t_week (x_t x)) (x_fs x) /\
+  exists id ct cf, d_find (f_local f0) n = Some (id, ct) /\ parse ct = Some cf /\
+                   uploader_week (cf_end cf) = t_week (x_t x) /\
+                   before_start (cf_end cf) (u_start c) = true.
+Proof. exact fault_delete_only_after_report. Qed.
+Print Assumptions C05_fault_delete_only_after_report.
+
+(* fault_keeps_or_drops (1), the counts: for a week W with no report before
+   the run, under every plan and at every point of the run, each count file
+   of W is still there with its inode and content, or its counts are in a
+   COMPLETELY written local.W.json, in which every file occurs once and
+   which contains only expired files of W.  (A short or failed write of
+   local.W.json leaves the count files.) *)
+Theorem C05_fault_keeps_or_drops : forall p f0 c exported W, fs_wf f0 ->
+  d_mem (f_local f0) (local_name W) = false -> d_mem (f_local f0) (ready_name W) = false ->
+  d_mem (up_dir f0) (marker_name W) = false ->
+  (forall g, d_mem (f_local f0) g = true -> collect_ready c g = true -> contains g W = false) ->
+  week_ok W ->
+  (forall n id ct cf, d_find (f_local f0) n = Some (id, ct) -> parse ct = Some cf ->
+     uploader_week (cf_end cf) <> W -> contains (ready_name (uploader_week (cf_end cf))) W = false) ->
+  NoDup (dnames (f_local f0)) ->
+  forall x n id ct cf, freach p (finit f0 c exported) x ->
+  is_count n = true -> d_find (f_local f0) n = Some (id, ct) -> parse ct = Some cf ->
+  uploader_week (cf_end cf) = W ->
+  d_find (f_local (x_fs x)) n = Some (id, ct) \/
+  exists idr r, d_find (f_local (x_fs x)) (local_name W) = Some (idr, CRep (Some r)) /\ r_week r = W /\
+                In (n, cf) (r_files r) /\ NoDup (map fst (r_files r)) /\
+                Forall (entry_ok (f_local f0) c W) (r_files r).
+Proof. exact fault_keeps_or_drops. Qed.
+Print Assumptions C05_fault_keeps_or_drops.
+
+(* fault_keeps_or_drops (2), the report to upload: under every plan a file of
+   local/ that is not a count file disappears only as the ready report the
+   run has just handled, and only when the server's marker upload/W.json
+   exists or the server answered this report with a 4xx *)
+Theorem C05_fault_ready_removed_only : forall p f0 c exported, fs_wf f0 ->
+  forall x picks n, freach p (finit f0 c exported) x -> is_count n = false ->
+  d_find (f_local (x_fs x)) n <> None -> d_find (f_local (x_fs (fst (fstep p picks x)))) n = None ->
+  n = t_file (x_t x) /\
+  (((t_pc (x_t x) = URemAlready \/ t_pc (x_t x) = URemDone) /\
+    d_mem (up_dir (x_fs x)) (marker_name (t_week (x_t x))) = true) \/
+   (t_pc (x_t x) = URem4xx /\
+    In (mkAck (t_week (x_t x)) (t_buf (x_t x)) O4xx (t_id (x_t x))) (x_log x))).
+Proof. exact fault_ready_removed_only. Qed.
+Print Assumptions C05_fault_ready_removed_only.
+
+(* non-vacuity: two expired count files of one week, mode on *)
+Definition uf_W : bytes := s2b "2024-01-07"%string.
+Definition uf_cfg : ucfg := mkCfg (1705000000%Z, 0%Z) true None (s2b "/t/local/"%string).
+Definition uf_cf1 : cfile := mkCF 1704153600%Z 1704585600%Z 0%N [(0%N, 1%Z)].
+Definition uf_cf2 : cfile := mkCF 1704240000%Z 1704585600%Z 1%N [(0%N, 2%Z)].
+Definition uf_a : bytes := s2b "a.v1.count"%string.
+Definition uf_b : bytes := s2b "b.v1.count"%string.
+Definition uf_fs : FS :=
+  mkFS [(uf_a, (0, CCount (Some uf_cf1) 1%N)); (uf_b, (1, CCount (Some uf_cf2) 2%N))] (Some []) 2.
+Definition uf_at (k : nat) (v : fk) : fplan := fun i => if Nat.eqb i k then v else FOk.
+Definition uf_show (x : fstate) :=
+  (fdone x, x_idx x, x_panic x, map fst (f_local (x_fs x)), map fst (up_dir (x_fs x)), List.length (x_log x)).
+
+(* no fault: 24 calls (bound 48), the counts end in local.W.json, the report is delivered once *)
+Example C05_ex_upload_no_fault :
+  uf_show (frun 48 (fun _ => FOk) [PW uf_W] (finit uf_fs uf_cfg true)) =
+  (true, 24, false, [local_name uf_W], [marker_name uf_W], 1).
+Proof. vm_compute. reflexivity. Qed.
+
+(* a short write of local.W.json (call 12 of the exported Run): the run
+   returns after 14 calls, both count files are still there, nothing is posted *)
+Example C05_ex_upload_short_write :
+  let y := frun 48 (uf_at 12 FShort) [PW uf_W] (finit uf_fs uf_cfg true) in
+  uf_show y = (true, 14, false, [local_name uf_W; ready_name uf_W; uf_a; uf_b], [], 0) /\
+  d_find (f_local (x_fs y)) (local_name uf_W) = Some (3, CRaw partial_id).
+Proof. vm_compute. split; reflexivity. Qed.
+
+(* the entropy read fails (call 4 of the inner Run): the panic state, after 5
+   calls, nothing touched *)
+Example C05_ex_upload_rand_panic :
+  uf_show (frun 48 (uf_at 4 FErr) [PW uf_W] (finit uf_fs uf_cfg false)) = (true, 5, true, [uf_a; uf_b], [], 0).
+Proof. vm_compute. reflexivity. Qed.
+
+(* ACROSS runs counts can be lost after a fault (not a violation of the
+   theorems above, which are about one run and a week without report): *)
+(* a transient ReadFile error on a.v1.count (call 2): the week's report is
+   written from b alone, a stays; the NEXT run, fault-free, finds the report
+   and deletes a - its counts are in no report *)
+Example C05_ex_upload_rerun_drops_unread_file :
+  let y1 := frun 48 (uf_at 2 FErr) [PW uf_W] (finit uf_fs uf_cfg true) in
+  let y2 := frun 48 (fun _ => FOk) [PW uf_W] (finit (x_fs y1) uf_cfg true) in
+  map fst (f_local (x_fs y1)) = [local_name uf_W; uf_a] /\
+  option_map (fun v => match snd v with CRep (Some r) => map fst (r_files r) | _ => [] end)
+    (d_find (f_local (x_fs y1)) (local_name uf_W)) = Some [uf_b] /\
+  fdone y2 = true /\ map fst (f_local (x_fs y2)) = [local_name uf_W] /\
+  d_find (f_local (x_fs y2)) (local_name uf_W) = d_find (f_local (x_fs y1)) (local_name uf_W).
+Proof. vm_compute. repeat split. Qed.
+
+(* a short write of local.W.json: the next run, fault-free, deletes both count
+   files (W.json exists) and delivers W.json; local.W.json stays truncated *)
+Example C05_ex_upload_rerun_keeps_truncated_report :
+  let y1 := frun 48 (uf_at 12 FShort) [PW uf_W] (finit uf_fs uf_cfg true) in
+  let y2 := frun 48 (fun _ => FOk) [PW uf_W] (finit (x_fs y1) uf_cfg true) in
+  uf_show y2 = (true, 15, false, [local_name uf_W], [marker_name uf_W], 1) /\
+  d_find (f_local (x_fs y2)) (local_name uf_W) = Some (3, CRaw partial_id).
+Proof. vm_compute. split; reflexivity. Qed.
+
+End UploaderHalf.
